@@ -126,6 +126,10 @@ pub struct View<'a> {
     pub limit_eff: u16,
     /// some CONNACK of this history lowered the limit in force below the configured one
     pub limit_lowered: bool,
+    /// ... to or below the id the allocator had handed out last
+    pub lowered_to_or_below_last_id: bool,
+    /// how the QoS>0 publish written last got to the wire ("Replay" = carried over from an earlier connection)
+    pub last_publish_replayed: bool,
     pub manual: bool,
     pub connected: bool,
     pub conn: u32,
@@ -253,6 +257,8 @@ impl<M: Machine> Runner<M> {
             limit_cfg: self.d.limit_cfg,
             limit_eff: self.d.limit_eff,
             limit_lowered: self.d.limit_ever_lowered,
+            lowered_to_or_below_last_id: self.d.lowered_to_or_below_last_id,
+            last_publish_replayed: self.d.last_publish_via == Some(crate::sub::s2::Via::Replay),
             manual: self.cfg.manual,
             connected: self.d.connected,
             conn: self.d.conn,
